@@ -26,6 +26,16 @@ Streams
                         mirrors the double entry), no oracle — recorded in notes/C16_findings.md.
   * `pbc_min_dist`      symmetry / periodicity / <= direct distance evaluated on the real method.
 
+Observable vs internal.  What decides a VIOLATION (the oracle) uses only what the property talks about: the
+public queries `get_point` (the position table = `get_point` of every node), `compute_force_point`,
+`pbc_min_dist`, and exceptions raised BY A PUBLIC METHOD on a protocol-conforming history (only those calls
+are inside the try-block; the harness never counts its own attribute access).  The bookkeeping attributes
+`defined_idxs`, `position_trees`, `gndx_to_tree` are compared with the model in separate correspondence
+streams `<stream>-internal`, and only when they exist with the expected types (`getattr`); otherwise
+`internal_state_not_observable` is tallied and the observable streams alone decide (`C16_refines_set` is
+what relates them to the internals in the model).  After every removal the generator also queries the
+force where the removed residue was, so stale internal state shows up in an observable.
+
 Numbers: all coordinates, box lengths, sizes are dyadic (multiples of 2^-6 … 2^-2), so `-`, `%`,
 `np.round`, squares and sums of squares are exact in double; positions, index lists, `gndx_to_tree`,
 `inf` verdicts and squared `pbc_min_dist` of perfect squares are compared exactly.  The force passes through
@@ -74,6 +84,8 @@ def lowered_engine_class(threshold_literal, new_threshold):
     from polyply.src.nonbond_engine import NonBondEngine
     func = NonBondEngine.add_positions
     code = func.__code__
+    if threshold_literal is None:
+        return None
     hits = [i for i, c in enumerate(code.co_consts) if type(c) is int and c == threshold_literal]
     if len(hits) != 1:
         return None
@@ -105,20 +117,51 @@ def make_engine(case, cls=None):
     return cls(positions, nodes_to_idx, names, inter, None, None, float(fr(case["cut"])), box)
 
 
-def canon_snapshot(engine):
-    pos = engine.positions
-    positions = [[int(g), vec_rs(pos[g])] for g in range(len(pos)) if pos[g][0] != np.inf]
-    defined = [sorted(int(i) for i in idxs) for idxs in engine.defined_idxs]
-    trees = [sorted(vec_rs(row) for row in np.asarray(tree.data).reshape(-1, 3)) for tree in engine.position_trees]
-    g2t = sorted([int(g), int(t)] for g, t in engine.gndx_to_tree.items())
-    return dict(positions=positions, defined=defined, trees=trees, g2t=g2t)
+def safe_vec(row):
+    return [rs(float(c)) if np.isfinite(c) else str(float(c)) for c in row]
+
+
+def public_positions(engine, nodes):
+    """OBSERVABLE: the position table as the public query `get_point` reports it (rows of inf = undefined)"""
+    table = []
+    for g, (mol, key) in enumerate(nodes):
+        row = np.asarray(engine.get_point(mol, key), dtype=float).reshape(-1)
+        if not np.all(np.isinf(row)):
+            table.append([int(g), safe_vec(row)])
+    return table
+
+
+def internal_snapshot(engine):
+    """INTERNAL bookkeeping (`defined_idxs`, `position_trees`, `gndx_to_tree`), read only if these attributes
+    exist with the expected types; None otherwise (a refactoring may rename or re-represent them — the
+    property does not talk about them)."""
+    try:
+        defined_idxs = getattr(engine, "defined_idxs", None)
+        position_trees = getattr(engine, "position_trees", None)
+        gndx_to_tree = getattr(engine, "gndx_to_tree", None)
+        if not isinstance(defined_idxs, list) or not isinstance(position_trees, list) \
+                or not isinstance(gndx_to_tree, dict) or len(defined_idxs) != len(position_trees):
+            return None
+        defined = [sorted(int(i) for i in idxs) for idxs in defined_idxs]
+        trees = [sorted(vec_rs(row) for row in np.asarray(tree.data, dtype=float).reshape(-1, 3))
+                 for tree in position_trees]
+        g2t = sorted([int(g), int(t)] for g, t in gndx_to_tree.items())
+        return dict(defined=defined, trees=trees, g2t=g2t)
+    except Exception:  # pylint: disable=broad-except
+        return None
+
+
+def canon_snapshot(engine, nodes):
+    """called OUTSIDE the try-block of the code under test except for the public `get_point` calls"""
+    return dict(positions=public_positions(engine, nodes), internal=internal_snapshot(engine))
 
 
 def canon_model_snapshot(snap):
     return dict(positions=[[g, list(p)] for g, p in snap["positions"]],
-                defined=[sorted(d) for d in snap["defined"]],
-                trees=[sorted(list(p) if p is not None else ["inf"] * 3 for p in tree) for tree in snap["trees"]],
-                g2t=sorted([g, t] for g, t in snap["g2t"]))
+                internal=dict(defined=[sorted(d) for d in snap["defined"]],
+                              trees=[sorted(list(p) if p is not None else ["inf"] * 3 for p in tree)
+                                     for tree in snap["trees"]],
+                              g2t=sorted([g, t] for g, t in snap["g2t"])))
 
 
 def canon_force(val):
@@ -164,10 +207,13 @@ def run_impl(case, cls=None):
                 val = engine.pbc_min_dist(a, b)
                 out.append(None if np.isnan(val) else Fraction(float(val)))
             elif k == "snap":
-                out.append(canon_snapshot(engine))
+                table = public_positions(engine, nodes)          # public get_point calls
         except Exception as err:  # pylint: disable=broad-except
+            # raised by a PUBLIC method of the code under test (nothing else is inside this try-block)
             out.append(dict(raised=type(err).__name__, at=k, msg=str(err)[:120]))
             break
+        if k == "snap":
+            out.append(dict(positions=table, internal=internal_snapshot(engine)))
     return out
 
 
@@ -214,6 +260,7 @@ def judge(ctx, case, impl, answer, stream, oracle=True):
         return None
     model = answer["out"]
     agree = True
+    internal_seen, internal_agree, internal_detail = True, True, (None, None)
     failure = None
     raised = next((o for o in impl if isinstance(o, dict) and "raised" in o), None)
     if raised is not None and oracle:
@@ -254,38 +301,30 @@ def judge(ctx, case, impl, answer, stream, oracle=True):
                     failure = ("wrong-min-image", "pbc_min_dist(%s, %s) = %s, minimum image distance squared is %s"
                                % (op["a"], op["b"], None if got is None else float(got), ans["model"]))
         elif k == "snap":
-            if got != canon_model_snapshot(ans["model"]):
+            msnap = canon_model_snapshot(ans["model"])
+            # observable part: the position table read through get_point
+            if got["positions"] != msnap["positions"]:
                 agree = False
+            # internal part: only when the bookkeeping attributes exist in the expected representation
+            if got["internal"] is None:
+                internal_seen = False
+            elif got["internal"] != msnap["internal"]:
+                internal_agree = False
+                internal_detail = (got["internal"], msnap["internal"])
             spec_pos = [[g, list(p)] for g, p in ans["spec"]]
-            if oracle and failure is None:
-                failure = views_consistent(got, spec_pos, i)
+            if oracle and failure is None and got["positions"] != spec_pos:
+                failure = ("stale-position", "position table (get_point of every node) differs from 'last position "
+                           "given / none after removal' at snapshot #%d: %s" % (i, diff_small(got["positions"], spec_pos)))
     if len(impl) != len(queries) and raised is None:
         agree = False
     ctx.correspond(stream, "agree" if agree else summarize(impl), "agree" if agree else summarize(model), replay)
+    if internal_seen:
+        ctx.correspond(stream + "-internal", "agree" if internal_agree else summarize(internal_detail[0]),
+                       "agree" if internal_agree else summarize(internal_detail[1]), replay)
+    else:
+        ctx.tally(internal_state_not_observable=stream)
     ctx.traces += 1
     return failure, contributing
-
-
-def views_consistent(snap, spec_pos, i):
-    """the four views of the implementation against the abstract map of the specification"""
-    if snap["positions"] != spec_pos:
-        return ("stale-position", "position table differs from 'last position given / none after removal' at "
-                "snapshot #%d: got %s want %s" % (i, diff_small(snap["positions"], spec_pos), "(see left)"))
-    positioned = sorted(g for g, _ in spec_pos)
-    joined = sorted(g for tree in snap["defined"] for g in tree)
-    if joined != positioned:
-        return ("index-lists", "per-tree index lists %s are not exactly the positioned residues %s (snapshot #%d)"
-                % (snap["defined"], positioned, i))
-    want_g2t = sorted([g, t] for t, tree in enumerate(snap["defined"]) for g in tree)
-    if snap["g2t"] != want_g2t:
-        return ("gndx-to-tree", "gndx_to_tree %s does not name the tree holding each residue %s (snapshot #%d)"
-                % (snap["g2t"], want_g2t, i))
-    table = dict((g, p) for g, p in spec_pos)
-    for t, tree in enumerate(snap["defined"]):
-        if sorted(table[g] for g in tree) != snap["trees"][t]:
-            return ("stale-tree", "search tree %d does not hold the current positions of its residues (snapshot #%d)"
-                    % (t, i))
-    return None
 
 
 def diff_small(a, b):
@@ -430,8 +469,15 @@ def gen_history(rng, static, nops, T, offprotocol=False, init=None, few_queries=
             if rng.random() < 0.1:
                 gs = list(members)
             ops.append(dict(k="remove", mol=mol, gs=gs))
+            gone = [pos[g] for g in gs if g in pos]
             for g in gs:
                 pos.pop(g, None)
+            for old in gone:
+                if rng.random() < 0.5:
+                    probe = rng.choice(small)
+                    where = near_point(rng, old, L, Fraction(0), Fraction(3, 32)) if rng.random() < 0.4 \
+                        else near_point(rng, old, L, Fraction(1, 8), cut)
+                    ops.append(dict(k="force", p=[rs(c) for c in where], g=probe, excl=[probe]))
         elif roll < 0.62:
             ops.append(dict(k="concat"))
         elif roll < 0.70:
@@ -637,17 +683,15 @@ def run_batch(ctx, cases, classes, stream, oracle=True):
             ctx.oracle_fail(failure[0], failure[1], dict(kind="history", stream=stream, case=small))
         trees = 1
         removal = any(o["k"] == "remove" for o in case["ops"])
-        for out in impl:
-            if isinstance(out, dict) and "defined" in out:
-                trees = max(trees, len(out["defined"]))
+        for out_m in (answer.get("out") or []):
+            if isinstance(out_m, dict) and isinstance(out_m.get("model"), dict) and "defined" in out_m["model"]:
+                trees = max(trees, len(out_m["model"]["defined"]))
         nontrivial = contributing and (trees >= 2 or removal)
         key = None
         if nontrivial:
             key = str(hash(json.dumps(case["ops"], sort_keys=True)))
         sample = dict(stream=stream, n=case["n"], L=case["L"], cut=case["cut"], T=case["T"],
-                      ops=case["ops"][:6] + ["… %d ops" % len(case["ops"])],
-                      last_snapshot_trees=[len(t) for t in impl[-1]["defined"]] if impl and isinstance(impl[-1], dict)
-                      and "defined" in impl[-1] else None)
+                      ops=case["ops"][:6] + ["… %d ops" % len(case["ops"])], max_trees=trees)
         ctx.case(key, sample=sample, stream=stream, max_trees=min(trees, 4), **histogram(case))
         for op in case["ops"]:
             ctx.tally(**{"op": op["k"]})
@@ -673,13 +717,19 @@ def corpus_cases():
 
 
 def threshold_literal():
-    from tables import engine as engine_tables
-    return int(Fraction(engine_tables.extract()["treeThreshold"]))
+    """the translated tree-opening threshold, None when the translator does not find the anchor"""
+    try:
+        from tables import engine as engine_tables
+        return int(Fraction(engine_tables.extract()["treeThreshold"]))
+    except Exception:  # pylint: disable=broad-except
+        return None
 
 
 def lowered_classes():
     literal = threshold_literal()
     classes = {}
+    if literal is None:
+        return {}
     for T in range(0, 13):
         cls = lowered_engine_class(literal, T)
         if cls is None:
@@ -727,7 +777,9 @@ def run(ctx):
     # real threshold, decided by the real literal: > 5000 points pre-loaded
     literal = threshold_literal()
     real_cases = []
-    for i in range(ctx.budget(1, 6)):
+    if literal is None:
+        ctx.tally(real_threshold_stream="unavailable")
+    for i in range(ctx.budget(1, 6) if literal is not None else 0):
         count0 = literal + rng.choice([1, 0, 3])          # at the boundary (n = T: not yet) and above it
         static, init = preload_static(rng, count0, 24)
         real_cases.append(gen_history(rng, static, rng.randint(50, 90), None, init=init, few_queries=True,
